@@ -367,6 +367,8 @@ def ShiftedPositionFFT(grid_domain, eps, pre_domain=None, shift_directions=None)
         shift_directions = tuple(range(len(shape)))
     elif isinstance(shift_directions, int):
         shift_directions = shift_directions,
+    else:
+        shift_directions = tuple(shift_directions)
     if min(shift_directions) < 0 or \
        max(shift_directions) >= len(shape) or \
        len(set(shift_directions)) != len(shift_directions):
